@@ -7,7 +7,7 @@
    [FUB site]; every panic yields [FPanic kind].  Handler bodies are a parameter ([beh]). *)
 From Coq Require Import List NArith Bool.
 Import ListNotations.
-Require Import EV.Base EV.Access EV.Query EV.SlotMap EV.Reserve EV.HList.
+Require Import EV.Base EV.Access EV.Query EV.SlotMap EV.Reserve EV.HList EV.Loop.
 Open Scope N_scope.
 
 (* ------------------------------------------------------------------ *)
@@ -833,27 +833,25 @@ Definition unwind_queue (q : list qitem) (w : world) : world :=
                else match get_by_index (w_gev w') (qi_idx it) with Some (_, i) => e_tag i | None => 999 end in
     ev_drop w' (qi_targeted it) tag (qi_ev it)) q w.
 
-(* flush_event_queue as the generic stack machine of Loop.v *)
-Fixpoint flush_loop (fuel : nat) (q : list qitem) (w : world) : world * option fail :=
-  match fuel with
-  | O => (w, Some (FPanic 8))
-  | S f =>
-      match rev q with
-      | [] => (set_resets w (w_resets w + 1), None)
-      | it :: _ =>
-          let rest := removelast q in
-          let before := length rest in
-          let '(sent, w1, fl) := deliver_one it w in
-          let q1 := rest ++ sent in
-          match fl with
-          | Some (FPanic k) =>
-              (* EventDropper::drop: destroy what is queued, then materialise the reservations *)
-              let w2 := unwind_queue q1 w1 in
-              (match spawn_all w2 with ROk _ w3 => w3 | RFail _ w3 => w3 end, Some (FPanic k))
-          | Some (FUB s) => (w1, Some (FUB s))
-          | None => flush_loop f (firstn before q1 ++ rev (skipn before q1)) w1
-          end
-      end
+(* flush_event_queue IS the generic stack machine of Loop.v, instantiated with
+   state = (world, failure raised by the last delivery), run = deliver_one *)
+Definition wst := (world * option fail)%type.
+Definition run_w (it : qitem) (s : wst) : list qitem * wst * bool :=
+  let '(sent, w1, fl) := deliver_one it (fst s) in
+  (sent, (w1, fl), match fl with Some _ => true | None => false end).
+Definition unwind_w (q : list qitem) (s : wst) : wst :=
+  match snd s with
+  | Some (FPanic k) =>
+      (* EventDropper::drop: destroy what is queued, then materialise the reservations *)
+      let w2 := unwind_queue q (fst s) in
+      (match spawn_all w2 with ROk _ w3 => w3 | RFail _ w3 => w3 end, Some (FPanic k))
+  | _ => s
+  end.
+Definition flush_loop (fuel : nat) (q : list qitem) (w : world) : world * option fail :=
+  match Loop.flush wst qitem run_w unwind_w fuel q (w, None) [] with
+  | None => (w, Some (FPanic 8))
+  | Some (_, (w', _), Finished) => (set_resets w' (w_resets w' + 1), None)      (* self.bump.reset() *)
+  | Some (_, (w', fl), Aborted) => (w', fl)
   end.
 Definition FUEL : nat := Nat.pow 2 14.
 Definition flush (q : list qitem) (w : world) : res unit :=
